@@ -38,7 +38,9 @@ READONLY_MODE = {'robsd': [b'bsd-reldir', b'x11-reldir'], 'robsd-cross': [b'targ
                  'robsd-regress': [b'regress-obj', b'regress-packages'], 'canvas': [b'robsddir']}
 ROOTS = [b'root', b'root', b'rroot', b'eroot', b'nroot']
 PATHS = [b'bin/csh', b'bin/ksh', b'sys/nfs', b'usr.sbin/bgpd', b'a', b'x-env', b'lib/libc', b'a-targets',
-         b'lib/libcrypto', b'sys/net', b'sys/netinet', b'bin/k']          # several names are prefixes of others
+         b'lib/libcrypto', b'sys/net', b'sys/netinet', b'bin/k',
+         # long paths: the variable regress-<path>-parallel then exceeds NAME_MAX while NNN-<path>.log still fits (seeded/C10-3)
+         b'usr.bin/' + b'longsuitename' * 18, b'lib/' + b'x' * 236]          # several names are prefixes of others
 GOODSTR = [b'plain', b'with space', b'x=1', b'UPPER', b'tab\there', b'#nocomment', b'${arch}', b'a${ncpu}b', b'${keep}', b'${hook}',
            b'${robsddir}/x', b'{brace}', b'semi;colon', b"quo'te", b'\xc3\xa9', b'${machine}-${arch}', b'0', b'yes']
 ODDSTR = [b'${nope}', b'$x', b'${', b'${}', b'multi\nline', b'${robsddir', b'a$', b'${kernel}', b'${sudo}']
@@ -168,7 +170,7 @@ class Gen:
         r = self.rng
         out = b''
         if not plain and r.random() < 0.2:
-            out += r.choice([b'# leading comment\n', b'\n\n', b'  \t', b'#\n#x\n'])
+            out += r.choice([b'# leading comment\n', b'\n\n', b'  \t', b'#\n#x\n', b'#\n', b'#\n# heading\n#\n'])
         for e in ents:
             line = b''
             for i, t in enumerate(e):
@@ -186,7 +188,8 @@ class Gen:
                 out += b'\n'
             else:
                 k = r.random()
-                out += b'\n' if k < 0.75 else (b' # trailing comment\n' if k < 0.85 else (b'\n\n' if k < 0.9 else (b'\n# c "x" {\n' if k < 0.95 else b'\n')))
+                # comments of every shape, the EMPTY one included (a bare '#' right before the newline, alone on a line or after an entry)
+                out += b'\n' if k < 0.70 else (b' # trailing comment\n' if k < 0.78 else (b'\n\n' if k < 0.83 else (b'\n# c "x" {\n' if k < 0.88 else (b'\n#\n' if k < 0.94 else (b' #\n' if k < 0.97 else b'\n')))))
         if not plain:
             k = r.random()
             if k < 0.05 and out.endswith(b'\n'):
